@@ -553,6 +553,7 @@ func addSyncIntrinsics(t map[string]Intrinsic) {
 		for {
 			st, _ := tab[p].(string)
 			if st == "done" {
+				m.hbAcquire(p)
 				return nil
 			}
 			if st == "" {
@@ -564,7 +565,7 @@ func addSyncIntrinsics(t map[string]Intrinsic) {
 			g.wait = nil
 		}
 		tab[p] = "running"
-		defer func() { tab[p] = "done" }()
+		defer func() { tab[p] = "done"; m.hbRelease(p) }()
 		m.call(fr, 0, a[1], nil)
 		return nil
 	}
@@ -588,6 +589,7 @@ func addSyncIntrinsics(t map[string]Intrinsic) {
 			m.runtimePanic(fr, "sync: negative WaitGroup counter")
 		}
 		tab[p] = n
+		m.hbRelease(p)
 		m.syncPoint(fr)
 		return nil
 	}
@@ -598,6 +600,7 @@ func addSyncIntrinsics(t map[string]Intrinsic) {
 		for {
 			n, _ := tab[p].(int64)
 			if n == 0 {
+				m.hbAcquire(p)
 				return nil
 			}
 			m.block(g, &waitState{what: "WaitGroup.Wait", custom: func() bool { n, _ := tab[p].(int64); return n == 0 }})
@@ -605,9 +608,11 @@ func addSyncIntrinsics(t map[string]Intrinsic) {
 		}
 	}
 	t["(*sync.Pool).Get"] = func(m *Machine, fr *Frame, fn *ssa.Function, a []Value) Value {
+		m.hbAcquire(a[0].(*Value)) // a Put happens before the Get that returns its value
 		return m.poolGet(fr, a[0].(*Value))
 	}
 	t["(*sync.Pool).Put"] = func(m *Machine, fr *Frame, fn *ssa.Function, a []Value) Value {
+		m.hbRelease(a[0].(*Value))
 		m.poolPut(fr, a[0].(*Value), a[1].(IfaceV))
 		return nil
 	}
@@ -855,6 +860,26 @@ func addAtomicIntrinsics(t map[string]Intrinsic) {
 		store(&(*p).(StructV)[0], v)
 		m.syncPoint(fr)
 		return nil
+	}
+	// happens-before: every atomic operation acquires what was released on its variable; stores and
+	// read-modify-write operations release (sync/atomic operations are sequentially consistent synchronisation)
+	for name, f := range t {
+		if !strings.HasPrefix(name, "sync/atomic.") && !strings.HasPrefix(name, "(*sync/atomic.") {
+			continue
+		}
+		f := f
+		isLoad := strings.Contains(name, "Load")
+		t[name] = func(m *Machine, fr *Frame, fn *ssa.Function, a []Value) Value {
+			key, _ := a[0].(*Value)
+			if key != nil {
+				m.hbAcquire(key)
+			}
+			r := f(m, fr, fn, a)
+			if key != nil && !isLoad {
+				m.hbRelease(key)
+			}
+			return r
+		}
 	}
 }
 
